@@ -19,6 +19,8 @@ pub struct History {
     pub rows: usize,
     pub limit: Option<usize>,
     pub calls: Vec<Call>,
+    /// monitor-specific annotations (e.g. where an excursion starts), kept in replay files
+    pub meta: Vec<(String, usize)>,
 }
 
 pub fn esc(s: &str) -> String {
@@ -91,7 +93,7 @@ pub fn json_str(s: &str) -> String {
 
 impl History {
     pub fn new(cols: usize, rows: usize, limit: Option<usize>) -> Self {
-        History { cols, rows, limit, calls: Vec::new() }
+        History { cols, rows, limit, calls: Vec::new(), meta: Vec::new() }
     }
 
     pub fn to_text(&self) -> String {
@@ -102,6 +104,9 @@ impl History {
             Some(l) => {
                 let _ = writeln!(o, "limit {}", l);
             }
+        }
+        for (k, v) in &self.meta {
+            let _ = writeln!(o, "meta {} {}", k, v);
         }
         for c in &self.calls {
             match c {
@@ -168,6 +173,10 @@ impl History {
                 "limit" => {
                     h.limit = if rest == "none" { None } else { Some(rest.parse().ok()?) };
                 }
+                "meta" => {
+                    let mut p = rest.split(' ');
+                    h.meta.push((p.next()?.to_string(), p.next()?.parse().ok()?));
+                }
                 "feed_str" => h.calls.push(Call::FeedStr(quoted(rest)?)),
                 "feed" => h.calls.push(Call::Feed(quoted(rest)?)),
                 "resize" => {
@@ -181,6 +190,10 @@ impl History {
             return None;
         }
         Some(h)
+    }
+
+    pub fn meta_get(&self, k: &str) -> Option<usize> {
+        self.meta.iter().find(|(n, _)| n == k).map(|(_, v)| *v)
     }
 
     pub fn build(&self) -> avt::Vt {
